@@ -153,8 +153,11 @@ fn main() {
             for kind in ["cnf", "wcnf", "gcnf"] {
                 let subs = subjects::subjects(kind, &tier.pick(vec!["i32"], vec!["i8", "i32", "isize"]), &[false, true]);
                 let inp = gen::inputs(kind, tier);
-                generic::c09(&subs, &inp.corpus, tier, &budget, &mut report);
-                report.completed.push(format!("{kind}: {} corpus documents x {} streaming subjects, line gated source, DEV(1..2) x chunk sizes", inp.corpus.len(), subs.len()));
+                let mut docs = inp.corpus.clone();
+                docs.extend(c07::renderings_d1(kind));
+                let docs = generic::dedup_docs(docs);
+                generic::c09(&subs, &docs, tier, &budget, &mut report);
+                report.completed.push(format!("{kind}: {} documents (corpus + every layout rendering with at most one non-default slot of three formulas) x {} streaming subjects, line gated source, DEV(1..2) x chunk sizes", docs.len(), subs.len()));
                 sample_docs(&mut report, kind, &inp.corpus);
             }
             report.traces = report.evaluations;
